@@ -14,6 +14,7 @@ import (
 	textwire "github.com/textwire/textwire/v2"
 	"pgregory.net/rapid"
 	"verif/lib/harness"
+	"verif/lib/tree"
 )
 
 // Result of one call into the library.
@@ -162,4 +163,10 @@ func runRapid(t *testing.T, c *harness.Check, quick, thorough int, prop func(rt 
 		c.S.RapidRuns++
 		prop(rt)
 	})
+}
+
+func TestMain(m *testing.M) {
+	code := m.Run()
+	tree.Cleanup()
+	os.Exit(code)
 }
